@@ -5,6 +5,7 @@ import SignaloModel.Proofs.SmoothProofs
 
 Property theorems for C14 (statements are printed by `#check`, axioms by `#check @Registry.abRec_snoc
 #check @Registry.ab_state
+#check @Registry.alphaBeta_registry_correct
 #print axioms`;
 `bin/check C14` re-elaborates this file on every run and audits the axiom lists).
 -/
@@ -17,3 +18,4 @@ open SignaloModel
 #print axioms Smooth.ab_const
 #print axioms Registry.abRec_snoc
 #print axioms Registry.ab_state
+#print axioms Registry.alphaBeta_registry_correct
